@@ -406,7 +406,16 @@ class Ctx:
         elif base[0] == "cparam":
             clo, idx = base[1], base[2]
             par = self._closure_parent.get(id(clo))
-            if par is not None and par["k"] == "mcall" and par["name"] in ITER_ADAPTORS and len(clo.get("params", [])) == 1:
+            rty = peel_ty(par["recv"].get("ty")) if par is not None and par["k"] == "mcall" else ""
+            if par is not None and par["k"] == "mcall" and len(clo.get("params", [])) == 1 and \
+                    rty.startswith(("core::result::Result", "core::option::Option")):
+                # closure over the payload of a Result/Option: `r.map(|x| ..)` binds x = r.Ok, `map_err` binds r.Err
+                if rty.startswith("core::option::Option"):
+                    proj = ".Some"
+                else:
+                    proj = ".Err" if par["name"] in ("map_err", "or_else", "unwrap_or_else") else ".Ok"
+                res = self.term(par["recv"], depth + 1) + proj + suffix
+            elif par is not None and par["k"] == "mcall" and par["name"] in ITER_ADAPTORS and len(clo.get("params", [])) == 1:
                 # an element of a filtered/reordered iterator is an element of the underlying collection
                 base = par["recv"]
                 while base["k"] == "mcall" and base["name"] in ELEM_PRESERVING:
@@ -447,22 +456,25 @@ class Ctx:
     # ---- formulas of boolean expressions
     def pat_test(self, pat, scrut_term):
         k = pat["k"]
-        if k in ("pbind",) and "sub" not in pat:
-            return T
+        if k == "pbind":
+            return self.pat_test(pat["sub"], scrut_term) if "sub" in pat else T
         if k == "pwild":
             return T
         if k in ("pref", "pderef"):
             return self.pat_test(pat["pat"], scrut_term)
         if k == "ptstruct" or k == "pstruct" or (k == "pexpr" and "path" in pat):
             v = variant_name(pat["path"])
+            inner = T
+            if v in ("Some", "Ok", "Err") and k == "ptstruct" and len(pat.get("pats", [])) == 1:
+                inner = self.pat_test(pat["pats"][0], scrut_term + "." + v)
             if v == "Some":
-                return Atom("some(%s)" % scrut_term)
+                return And(Atom("some(%s)" % scrut_term), inner)
             if v == "None":
                 return Not(Atom("some(%s)" % scrut_term))
             if v == "Ok":
-                return Atom("ok(%s)" % scrut_term)
+                return And(Atom("ok(%s)" % scrut_term), inner)
             if v == "Err":
-                return Not(Atom("ok(%s)" % scrut_term))
+                return And(Not(Atom("ok(%s)" % scrut_term)), inner)
             # struct (irrefutable) vs enum variant
             if pat["path"] in self.prog.structs:
                 return T
@@ -498,6 +510,11 @@ class Ctx:
         if k == "lit" and "bool" in (n.get("v") or {}):
             return T if n["v"]["bool"] else F
         if k == "let":
+            init = n["init"]
+            if init["k"] in ("ctor", "ctorref", "const") and str(init.get("path", "")).endswith("::None") and not init.get("args"):
+                pp_ = n["pat"]
+                if pp_["k"] == "ptstruct" and pp_["path"].endswith("::Some"):
+                    return F   # `if let Some(_) = None` (async_trait's type-inference stub)
             return self.pat_test(n["pat"], self.term(n["init"]))
         if k == "block" and not n.get("stmts") and "expr" in n:
             return self.formula(n["expr"], benv)
